@@ -749,6 +749,10 @@ class Domain:
                 raise PyExc(self.make_exc("IndexError", (str(e),)))
         if isinstance(v, dict):
             return v[idx]
+        if isinstance(v, Obj) and v.cls == "OptimizeResult" and isinstance(idx, str):
+            if idx not in v.f:
+                raise PyExc(self.make_exc("KeyError", (idx,)))
+            return v.f[idx]
         if isinstance(v, LibFn):
             return LibFn(v.name + "[]")         # typing.Deque[...] etc. in annotations-as-values
         raise Unsupported(f"subscript of {type(v).__name__} at {self.run.site}")
@@ -761,6 +765,8 @@ class Domain:
         if isinstance(o, dict):
             o[idx] = v
             return
+        if isinstance(o, Obj) and o.cls == "OptimizeResult" and isinstance(idx, str):
+            return self.setattr(o, idx, v)
         if isinstance(o, list):
             o[idx] = v
             return
